@@ -50,7 +50,7 @@ structure Hist where
   proposal : Addr → Height → Round → Val → Prop
   prevote : Addr → Height → Round → Option Val → Prop
   precommit : Addr → Height → Round → Option Val → Prop
-  decision : Addr → Height → Val → Prop
+  decision : Addr → Height → Round → Val → Prop
 
 structure LState where
   height : Height
@@ -76,7 +76,7 @@ def PCQuorum (E : AEnv) (H : Hist) (h : Height) (r : Round) (v : Val) : Prop :=
 def initL (h0 : Height) : LState := ⟨h0, false, 0, .propose, none, -1⟩
 
 def Sys.init (h0 : Addr → Height) : Sys :=
-  { hist := ⟨fun _ _ _ _ => False, fun _ _ _ _ => False, fun _ _ _ _ => False, fun _ _ _ => False⟩,
+  { hist := ⟨fun _ _ _ _ => False, fun _ _ _ _ => False, fun _ _ _ _ => False, fun _ _ _ _ => False⟩,
     loc := fun a => initL (h0 a) }
 
 def setLoc (s : Sys) (p : Addr) (l : LState) : Addr → LState := fun a => if a = p then l else s.loc a
@@ -98,8 +98,8 @@ def addPrevote (H : Hist) (p : Addr) (h : Height) (r : Round) (id : Option Val) 
 def addPrecommit (H : Hist) (p : Addr) (h : Height) (r : Round) (id : Option Val) : Hist :=
   { H with precommit := fun a h' r' w => H.precommit a h' r' w ∨ (a = p ∧ h' = h ∧ r' = r ∧ w = id) }
 
-def addDecision (H : Hist) (p : Addr) (h : Height) (v : Val) : Hist :=
-  { H with decision := fun a h' w => H.decision a h' w ∨ (a = p ∧ h' = h ∧ w = v) }
+def addDecision (H : Hist) (p : Addr) (h : Height) (r : Round) (v : Val) : Hist :=
+  { H with decision := fun a h' r' w => H.decision a h' r' w ∨ (a = p ∧ h' = h ∧ r' = r ∧ w = v) }
 
 /-- Transitions of a correct process `p` (`l` is its local state `s.loc p`). -/
 inductive Step (E : AEnv) : Sys → Sys → Prop
@@ -135,7 +135,7 @@ inductive Step (E : AEnv) : Sys → Sys → Prop
       ¬ E.byz p → s.loc p = l → l.started = true →
       PCQuorum E s.hist l.height r v → E.valid v = true →
       (E.byz (E.proposer l.height r) ∨ s.hist.proposal (E.proposer l.height r) l.height r v) →
-      Step E s ⟨addDecision s.hist p l.height v, setLoc s p (initL (l.height + 1))⟩
+      Step E s ⟨addDecision s.hist p l.height r v, setLoc s p (initL (l.height + 1))⟩
 
 /-- Reachable states of the system. -/
 inductive Reach (E : AEnv) (h0 : Addr → Height) : Sys → Prop
